@@ -3,7 +3,7 @@
    Byte strings are lists of Z; every theorem quantifies over ALL strings (and all schemas / keywords where they occur).
    What is NOT proved is listed in props/C09/meta.json (crash- and hang-freedom of the C++ is exploration only). *)
 From Coq Require Import ZArith List Bool Arith Lia.
-From CV Require Import C09.ParseModel C09.ParseProofs C09.NumProofs C09.LookupProofs C09.FlatProofs C09.ValueProofs C09.OrigProofs C09.NestedProofs C09.SeqProofs C09.ComposedProofs.
+From CV Require Import C09.ParseModel C09.ParseProofs C09.NumProofs C09.LookupProofs C09.FlatProofs C09.ValueProofs C09.OrigProofs C09.NestedProofs C09.SeqProofs C09.ComposedProofs C09.GenProofs Gen.GenC09Keywords.
 Import ListNotations.
 Local Open Scope Z_scope.
 
@@ -358,6 +358,25 @@ Theorem C09_tuple_vector_strict : forall n data vs,
   vector_dyn (extract_tuple n) data = VAccept vs <-> tokens_of (extract_tuple n) data vs.
 Proof. exact tuple_vector_strict. Qed.
 Print Assumptions C09_tuple_vector_strict.
+
+(* ---------------------------------------------------------------- the real blocks (table regenerated on every run) *)
+
+(* Gen/GenC09Keywords.v lists, for every kind of real object (module level, colvar, components, atom group, each bias
+   type), the keywords its init() looks up, recorded from the binary built in this run.  Every one of them is a good
+   key, stored lower-cased; so the theorems above that assume good_key / schema_ok (key_lookup found-iff, totality,
+   unknown keyword, no unknown text) apply to every keyword of every real block; and a remaining line is accepted by
+   that block's check_keywords iff its first word, lower-cased, is one of the recorded keywords and the rest of the
+   line holds only braces and recorded keywords. *)
+Theorem GenC09_real_blocks_keywords : forall kind ks, In (kind, ks) real_keywords ->
+  (forall k, In k ks -> good_key k /\ to_lower k = k) /\
+  schema_ok (map (fun k => (k, KString)) ks) /\
+  (forall l, (line_ok ks l = true <-> line_clean ks l) /\
+             (starts_with_keyword ks l <-> In (to_lower (first_token (strip_cr l))) ks)).
+Proof.
+  intros kind ks Hi. destruct (table_ok_sound real_keywords real_keywords_ok kind ks Hi) as [H1 H2].
+  split; [exact H1|split; [exact H2|intros l; exact (real_block_line kind ks l Hi)]].
+Qed.
+Print Assumptions GenC09_real_blocks_keywords.
 
 (* ---------------------------------------------------------------- examples: the premises are satisfiable *)
 
